@@ -13,6 +13,8 @@
   findings                         every known_findings.json entry is demonstrated on the real code before its repair
                                    (scratch worktree) and is silent / reported as KNOWN-FINDING on the current tree
   clean [n]                        the unchanged tree must stay silent for n seeds (default 5), all 19 checks
+  wild [names]                     17 gross changes (encoders / decoder / probe / processor return nonsense or panic):
+                                   the harness must survive, the monitor must evaluate, something must be flagged
 """
 import json
 import os
@@ -123,6 +125,9 @@ def main(args, chk):
     if what == "findings":
         import st_models
         return st_models.findings(chk)
+    if what == "wild":
+        import wild
+        return wild.main(chk, rest)
     if what == "corrupt":
         import st_models
         return st_models.corrupt(chk)
